@@ -7,7 +7,7 @@ def decDic : List Sexp → Option Dic
   | list [k, v] :: xs => do pure ((← k.toStr?, ← v.toInt?) :: (← decDic xs))
   | _ => none
 
-def decCfg : Sexp → Option Cfg
+def decCfg5 (roots : List String) : Sexp → Option Cfg
   | list [list (atom "dic" :: kvs), list [atom "rbv", rbv], list (atom "entry" :: ent), list [atom "abort", ab],
           list (atom "order" :: ord)] => do
       let entry ← match ent with
@@ -15,8 +15,13 @@ def decCfg : Sexp → Option Cfg
         | atom "some" :: es => (decStrs es).map some
         | _ => none
       let pa ← match ab with | atom "default" => some true | atom "errorstop" => some false | _ => none
-      pure { dic := ← decDic kvs, rbv := ← rbv.toBool?, entry := entry, printAbort := pa, order := ← decStrs ord }
+      pure { dic := ← decDic kvs, rbv := ← rbv.toBool?, entry := entry, printAbort := pa, order := ← decStrs ord, roots := roots }
   | _ => none
+
+/-- the optional sixth component `(roots u…)` lists the drivers; without it the main unit is the only driver -/
+def decCfg : Sexp → Option Cfg
+  | list [a, b, c, d, e, list (atom "roots" :: rs)] => do decCfg5 (← decStrs rs) (list [a, b, c, d, e])
+  | x => decCfg5 [] x
 
 /-- `(param prog cfg inputs flag)` → `(result (classes…) prog')`: the known-finding classes of the request and the program after
 `ParametriseTransformation` over the call tree (comments dropped), or `(result (classes…) (error kind))` when the real
